@@ -103,6 +103,56 @@ def classify_loops(prog, fn):
     return out
 
 
+def early_exits(fn, info):
+    """exit edges of an iterator-driven loop other than "the iterator is exhausted": a `break` or `return` in the body (an edge that leaves the loop from a block
+    other than the one that tests next()); edges into `unreachable` blocks and the error edge of a `?` are not early exits"""
+    body = fn.body
+    blocks = info["blocks"]
+    drv = set()
+    for b in blocks:
+        t = body.blocks[b]["term"]
+        if t["t"] == "call" and short_callee(callee_name(t) or "") in ("next", "next_back") and t.get("to") is not None:
+            drv.add(t["to"])
+    eb = None
+    out = []
+    for b in sorted(blocks):
+        for s_ in body.succs(b):
+            if s_ in blocks or b in drv or body.blocks[s_]["term"]["t"] == "unreachable":
+                continue
+            t = body.blocks[b]["term"]
+            if t["t"] == "switch":
+                eb = eb or ExprBuilder(body)
+                d = strip(eb.operand(t["d"]))
+                if d[0] == "discr" and strip(d[1])[0] == "call" and short_callee(strip(d[1])[1]) == "branch":
+                    continue
+            out.append((b, s_))
+    return out
+
+
+def check_no_early_exit(ctx, rule, prog, fn, what):
+    """every iterator-driven loop of fn (and of its closures) visits all the elements: a sum over the model's elements must not stop at the first element that is skipped"""
+    n = 0
+    for f_ in [fn] + prog.closures_of(fn):
+        for info in classify_loops(prog, f_):
+            if info["kind"] != "iterator":
+                continue
+            n += 1
+            ex = early_exits(f_, info)
+            key = "%s|%s" % (rule, info.get("source") or "?")
+            if any(i.key == key for i in ctx.instances):
+                key += "|%d" % n
+            if ex:
+                ln = None
+                for s in f_.body.blocks[ex[0][0]]["st"]:
+                    ln = s.get("ln") or ln
+                ln = ln or f_.body.blocks[ex[0][0]]["term"].get("ln") or info["line"]
+                ctx.violation(rule, key, "the loop over %s can be left before the last element (a `break` or `return` in its body): the elements after that point are not counted in %s, "
+                              "and the result depends on the order of the elements" % (info.get("source"), what), f_.loc(ln))
+            else:
+                ctx.ok(rule, key, "the loop over %s ends only when its iterator is exhausted" % info.get("source"), f_.loc(info["line"]))
+    return n
+
+
 def unbounded_consumers(prog, fn):
     """iterator chains consumed by std consumers (collect, sum, for_each, count, last, fold...) with an unbounded source"""
     body = fn.body
